@@ -504,8 +504,10 @@ struct Ctx {
     ptimes: Vec<(i64, i32)>,
     /// Ack ids delivered so far (PULL / SR results), in output order.
     acks: Vec<String>,
-    /// Handler futures driven poll by poll (`XH` / `XP`).
+    /// Handler futures driven poll by poll (`XH` / `XP`, `XN` / `XQ` / `XD`).
     held: BTreeMap<String, (HeldPull, Arc<deltio::subscriptions::Subscription>)>,
+    /// Requests put into a mailbox by `XF` and not yet awaited (they finish at the next `XT`).
+    fillers: Vec<std::pin::Pin<Box<dyn Future<Output = ()> + Send>>>,
 }
 
 type HeldPull = std::pin::Pin<
@@ -551,7 +553,10 @@ async fn run_ops(
         let stop = res.is_err();
         // BG / CANCEL / YIELD are scheduling directives: the next op starts without
         // letting the runtime settle first.
-        let directive = matches!(line.split(' ').next(), Some("BG") | Some("CANCEL") | Some("YIELD"));
+        let directive = matches!(
+            line.split(' ').next(),
+            Some("BG") | Some("CANCEL") | Some("YIELD") | Some("XN") | Some("XQ") | Some("XD") | Some("XF")
+        );
         if !stop && !directive {
             quiesce(&ctx).await;
         }
@@ -621,6 +626,7 @@ async fn start(push_mode: bool) -> Result<Ctx, Fail> {
         ptimes: Vec::new(),
         acks: Vec::new(),
         held: BTreeMap::new(),
+        fillers: Vec::new(),
     })
 }
 
@@ -819,6 +825,7 @@ async fn exec(ctx: &mut Ctx, line: &str) -> OpResult {
                     ptimes: Vec::new(),
                     acks: ctx.acks.clone(),
                     held: BTreeMap::new(),
+                    fillers: Vec::new(),
                 };
                 tokio::spawn(async move { BgOut::Line(exec_boxed(&mut sub, inner).await) })
             };
@@ -1398,6 +1405,87 @@ async fn exec(ctx: &mut Ctx, line: &str) -> OpResult {
                 let _ = tokio::time::timeout(HANG_AFTER, f.as_mut()).await;
             }
             Ok(format!("XC {}", if done { "done" } else { "dropped" }))
+        }
+        "XN" => {
+            // XN <id> <sub> <max>: the unary Pull handler (blocking form) is created, not polled.
+            use deltio::pubsub_proto::subscriber_server::Subscriber;
+            let id = t.next().map_err(bad)?.to_string();
+            let sub_name = t.str().map_err(bad)?;
+            let max: i32 = t.num().map_err(bad)?;
+            t.end().map_err(bad)?;
+            let (tm, sm, _) = ctx.app.verif_parts();
+            let sub = SubscriptionName::try_parse(&sub_name)
+                .and_then(|n| sm.get_subscription(&n).ok())
+                .ok_or_else(|| bad("XN: no such subscription".into()))?;
+            let svc = deltio::verif::subscriber_service(tm, sm);
+            #[allow(deprecated)]
+            let req = PullRequest {
+                subscription: sub_name,
+                max_messages: max,
+                return_immediately: false,
+            };
+            let fut: HeldPull = Box::pin(async move { svc.pull(tonic::Request::new(req)).await });
+            ctx.held.insert(id, (fut, sub));
+            Ok("XN".to_string())
+        }
+        "XQ" => {
+            // XQ <id>: one poll of the held handler; nothing else runs.
+            let id = t.next().map_err(bad)?.to_string();
+            t.end().map_err(bad)?;
+            let (fut, _) = match ctx.held.get_mut(&id) {
+                Some(x) => x,
+                None => return Ok("XQ gone".to_string()),
+            };
+            match futures::poll!(fut.as_mut()) {
+                std::task::Poll::Pending => Ok("XQ pending".to_string()),
+                std::task::Poll::Ready(r) => {
+                    ctx.held.remove(&id);
+                    Ok(match r {
+                        Ok(resp) => format!("XQ done 0 {}", resp.into_inner().received_messages.len()),
+                        Err(_) => "XQ done err".to_string(),
+                    })
+                }
+            }
+        }
+        "XD" => {
+            // XD <id>: the held handler is dropped where it stands.
+            let id = t.next().map_err(bad)?.to_string();
+            t.end().map_err(bad)?;
+            Ok(match ctx.held.remove(&id) {
+                Some(_) => "XD".to_string(),
+                None => "XD gone".to_string(),
+            })
+        }
+        "XF" => {
+            // XF <sub> <n>: n GetStats requests are put into the subscription's mailbox (each polled once);
+            // they are answered when the runtime runs (XT or any op that settles).
+            let sub_name = t.str().map_err(bad)?;
+            let n: usize = t.num().map_err(bad)?;
+            t.end().map_err(bad)?;
+            let (_, sm, _) = ctx.app.verif_parts();
+            let sub = SubscriptionName::try_parse(&sub_name)
+                .and_then(|n| sm.get_subscription(&n).ok())
+                .ok_or_else(|| bad("XF: no such subscription".into()))?;
+            for _ in 0..n {
+                let sub = Arc::clone(&sub);
+                let mut f: std::pin::Pin<Box<dyn Future<Output = ()> + Send>> =
+                    Box::pin(async move { let _ = sub.get_stats().await; });
+                let _ = futures::poll!(f.as_mut());
+                ctx.fillers.push(f);
+            }
+            Ok("XF".to_string())
+        }
+        "XT" => {
+            // XT: the runtime runs until it is idle (the loop in run_ops settles after this op); the
+            // fillers are ordinary requests and finish here.
+            t.end().map_err(bad)?;
+            for _ in 0..64 {
+                tokio::task::yield_now().await;
+            }
+            for mut f in std::mem::take(&mut ctx.fillers) {
+                let _ = tokio::time::timeout(HANG_AFTER, f.as_mut()).await;
+            }
+            Ok("XT".to_string())
         }
         "XH" => {
             // XH <id> <sub> <max>: the server's own unary Pull handler (blocking form), called without the
